@@ -436,11 +436,8 @@ func genC18(t *rapid.T) c18Case {
 	if rapid.IntRange(0, 3).Draw(t, "rootfails") > 0 {
 		root.Beh = []behavior{{Kind: "run", Lat: rapid.IntRange(0, 5).Draw(t, "rootlat")}}
 	} else {
-		for i := range root.Beh {
-			if root.Beh[i].Kind == "done" || root.Beh[i].Kind == "done-slow" {
-				root.Beh[i].Kind = "error"
-			}
-		}
+		// (a root that only sets its children up and signals completion is legal too: its children keep running under
+		// it, and cancelling the supervisor must still stop them)
 	}
 	if len(root.Groups) == 0 {
 		root.Groups = [][]svc{{genSvc(t, "s0", 1, false), genSvc(t, "s1", 1, false)}}
